@@ -128,3 +128,72 @@ CONTRACTS += [
     Contract("ofxtools.models:OFX.signon", args=[OfxArg()], call=prop("signon"),
              ensures=[("sonrq", "result is ofx.signonmsgsrqv1.sonrq")], props=["C16"], symbolic_only=True),
 ]
+
+
+# =============================================================================== currency type / symbol / rate (Origcurrency mixin)
+# curtype, cursym, currate read CURRENCY if present, else ORIGCURRENCY, else nothing.  A CURRENCY / ORIGCURRENCY
+# instance is an (empty) list subclass and therefore FALSY: "present" must mean "is not None".
+from ofxtools.models.i18n import Origcurrency, CURRENCY, ORIGCURRENCY
+
+
+class CurArg(Arg):
+    name = "tx"
+
+    def make(self, it):
+        def cur(cls, label):
+            return SObj(cls, {"__items__": [], "cursym": opaque(label + "_sym"), "currate": opaque(label + "_rate")}, fresh=False, label=label)
+        c, o = cur(CURRENCY, "currency"), cur(ORIGCURRENCY, "origcurrency")
+        has_c, has_o = z3.Bool("has_currency"), z3.Bool("has_origcurrency")
+        self_ = SObj(m.STMTTRN, {"__items__": [], "currency": SIte(has_c, c, None), "origcurrency": SIte(has_o, o, None)}, fresh=False, label="tx")
+        return {"self": self_, "cur": c, "orig": o, "has_c": SBool(has_c), "has_o": SBool(has_o)}, [z3.Not(z3.And(has_c, has_o))]
+
+
+def cur_prop(name):
+    def call(it, fn, a):
+        return it.getattr(a[0]["self"], name)
+    return call
+
+
+for nm, want_c, want_o in (("curtype", "'CURRENCY'", "'ORIGCURRENCY'"), ("cursym", "tx['cur'].cursym", "tx['orig'].cursym"), ("currate", "tx['cur'].currate", "tx['orig'].currate")):
+    CONTRACTS.append(Contract(f"ofxtools.models.i18n:Origcurrency.{nm}", args=[CurArg()], call=cur_prop(nm),
+                              ensures=[("full-path-value", f"(result == {want_c}) if tx['has_c'] else ((result == {want_o}) if tx['has_o'] else result is None)")],
+                              notes=f"{nm} on a transaction with CURRENCY, with ORIGCURRENCY, or with neither (presence symbolic; the aggregates are empty lists, i.e. falsy)",
+                              props=["C16"], symbolic_only=True))
+
+
+def cur_native_cases(tier):
+    import decimal
+    out = []
+    for cname in sorted(n for n in dir(m) if isinstance(getattr(m, n), type) and issubclass(getattr(m, n), Origcurrency) and n.isupper()):
+        for which in ("currency", "origcurrency", None):
+            out.append([cname, which])
+    return out
+
+
+def cur_native(it, fn, a):
+    import decimal
+    from xengine import aggx
+    cname, which = a
+    C = getattr(m, cname)
+    b = aggx.Builder(aggx.env(), 0)
+    try:
+        x = b.witness(C, (which,) if which else ())
+    except Exception as ex:
+        return [f"cannot build {cname} with {which}: {ex}"]
+    problems = []
+    sub = getattr(x, which) if which else None
+    want = (type(sub).__name__, sub.cursym, sub.currate) if sub is not None else (None, None, None)
+    got = (x.curtype, x.cursym, x.currate)
+    if got != want:
+        problems.append(f"{cname} with {which}: (curtype, cursym, currate) = {got!r}, the full path gives {want!r}")
+    return problems
+
+
+class A2_(Arg):
+    def __init__(self, name):
+        self.name = name
+
+
+CONTRACTS.append(Contract("ofxtools.models.i18n:Origcurrency.curtype", args=[A2_("cls"), A2_("which")], call=cur_native,
+                          ensures=[("full-path-value-on-real-instances", "result == []")], cases=cur_native_cases, native_only=True,
+                          notes="every model class using the Origcurrency mixin x {CURRENCY, ORIGCURRENCY, neither}: real instances", props=["C16"]))
